@@ -17,6 +17,7 @@ import (
 	"regexp"
 	"sort"
 	"strings"
+	"sync/atomic"
 	"testing"
 	"time"
 
@@ -713,8 +714,69 @@ func TestPropRouteActions(t *testing.T) {
 	ev.Check(t, func(rt *rapid.T) {
 		c := genConfig(rt)
 		q := genRequest(rt, c)
-		actionCase(rt, c, q)
+		d := delivery{Via: rapid.SampledFrom(deliveries).Draw(rt, "delivery")}
+		if d.Via != viaNewRouters {
+			d.Prev = genConfig(rt)
+		}
+		actionCase(rt, c, q, d)
 	})
+}
+
+// How the configuration reaches the route table. Besides router.NewRouters the table is taken from the router
+// manager (what a listener's proxy does), where the configuration arrives as an update of a previous generation
+// under the same router name - as a fresh object (xDS conversion, debug API) or as the caller's one configuration
+// object, edited in place and pushed again (RouterManager is a public API; nothing says the object must be new).
+const (
+	viaNewRouters    = "NewRouters"
+	viaManagerFresh  = "manager:update-with-a-fresh-object"
+	viaManagerReused = "manager:update-with-the-same-object-edited-in-place"
+)
+
+var deliveries = []string{viaNewRouters, viaNewRouters, viaManagerFresh, viaManagerReused}
+
+type delivery struct {
+	Via  string   `json:"via"`
+	Prev *cfgSpec `json:"previous_generation,omitempty"`
+}
+
+var managerNames int64
+
+// build returns the route table the request is looked up in.
+func (d delivery) build(cfgText []byte, fail func(sig, msg string)) types.Routers {
+	cfg := &v2.RouterConfiguration{}
+	if err := json.Unmarshal(cfgText, cfg); err != nil {
+		fail("config/valid-json-rejected", fmt.Sprintf("v2.RouterConfiguration rejected a valid configuration: %v", err))
+	}
+	if d.Via == viaNewRouters {
+		rs, err := router.NewRouters(cfg)
+		if err != nil {
+			fail("config/valid-config-rejected", fmt.Sprintf("NewRouters rejected a valid configuration: %v", err))
+		}
+		return rs
+	}
+	// a small pool of names: a "first" generation is itself an update of what an earlier case left behind
+	name := fmt.Sprintf("c17-m%d", atomic.AddInt64(&managerNames, 1)%64)
+	prev := &v2.RouterConfiguration{}
+	if err := json.Unmarshal(configJSON(d.Prev), prev); err != nil {
+		fail("config/valid-json-rejected", fmt.Sprintf("v2.RouterConfiguration rejected a valid configuration (previous generation): %v", err))
+	}
+	prev.RouterConfigName, cfg.RouterConfigName = name, name
+	rm := router.GetRoutersMangerInstance()
+	if err := rm.AddOrUpdateRouters(prev); err != nil {
+		fail("config/valid-config-rejected", fmt.Sprintf("AddOrUpdateRouters rejected a valid configuration (previous generation): %v", err))
+	}
+	if d.Via == viaManagerReused {
+		*prev = *cfg
+		cfg = prev
+	}
+	if err := rm.AddOrUpdateRouters(cfg); err != nil {
+		fail("config/valid-config-rejected", fmt.Sprintf("AddOrUpdateRouters rejected a valid configuration: %v", err))
+	}
+	w := rm.GetRouterWrapperByName(name)
+	if w == nil || w.GetRouters() == nil {
+		fail("config/accepted-configuration-has-no-table", "the router manager has no route table for the accepted configuration")
+	}
+	return w.GetRouters()
 }
 
 var foldVariants = []struct {
@@ -733,7 +795,7 @@ var foldVariants = []struct {
 	{"append-to-absent-adds-comma", foldOpts{order: [3]int{0, 1, 2}, skipRemoveAt: -1, appendOnAbsent: true}},
 }
 
-func actionCase(rt *rapid.T, c *cfgSpec, q *reqSpec) {
+func actionCase(rt *rapid.T, c *cfgSpec, q *reqSpec, d delivery) {
 	vh := &c.VHosts[q.VH]
 	r := &vh.Routes[q.R]
 
@@ -803,22 +865,25 @@ func actionCase(rt *rapid.T, c *cfgSpec, q *reqSpec) {
 			break
 		}
 	}
+	classes = append(classes, "delivery:"+d.Via)
+	if d.Via != viaNewRouters {
+		canon = append(canon, []byte(d.Via+string(configJSON(d.Prev)))...)
+	}
 	ev.Case(partPure, nontrivial, canon, func() interface{} {
-		return map[string]interface{}{"config": json.RawMessage(configJSON(c)), "request": q}
+		return map[string]interface{}{"config": json.RawMessage(configJSON(c)), "request": q, "delivery": d.Via}
 	}, classes...)
 
 	cfgText := configJSON(c)
-	desc := func() string { return fmt.Sprintf("config=%s request=%s target=%s", cfgText, mustJSON(q), r.ID) }
+	desc := func() string {
+		s := fmt.Sprintf("config=%s request=%s target=%s", cfgText, mustJSON(q), r.ID)
+		if d.Via != viaNewRouters {
+			s += fmt.Sprintf(" delivery=%s previous generation=%s", d.Via, configJSON(d.Prev))
+		}
+		return s
+	}
 
 	// ---- MOSN
-	cfg := &v2.RouterConfiguration{}
-	if err := json.Unmarshal(cfgText, cfg); err != nil {
-		ev.Fail(rt, partPure, "config/valid-json-rejected", "v2.RouterConfiguration rejected a valid configuration: %v; %s", err, desc())
-	}
-	rs, err := router.NewRouters(cfg)
-	if err != nil {
-		ev.Fail(rt, partPure, "config/valid-config-rejected", "NewRouters rejected a valid configuration: %v; %s", err, desc())
-	}
+	rs := d.build(cfgText, func(sig, msg string) { ev.Fail(rt, partPure, sig, "%s; %s", msg, desc()) })
 	ctx := newCtx(q, r.ID)
 	reqH := reqHeaderMap(q.ReqHdr, q.HTTPType)
 	route := rs.MatchRoute(ctx, reqH)
